@@ -23,8 +23,13 @@ network_name, log_level)` on the fake reactor, its connect attempt is wired to t
 NetQASMFactory is taken from the reactor's listen table; then `factory.topology` (= the topology of ITS network in
 the file), `is_adjacent` and every (issuer, remote id) request are judged exactly as in the main stage.
 
-Oracle (independent of the Lean model): allowed iff the remote id is known,
-names another node, and the topology is None or lists that node for the
+Remote node ids are register values, i.e. SIGNED 32-bit integers (`set R0 -3` is valid NetQASM): besides 0..n the
+boundary-id stage sends -n-1 .. n+1 and the register limits, as create-and-keep and as measure-directly requests
+(`boundary_ids`, `Bench.refusals`: the out-of-range requests of one issuer are consecutive subroutines of one
+application, each judged on its own).  The same ids are what `search` tries first.
+
+Oracle (independent of the Lean model): allowed iff the remote id is known (0 <= id < n, the index in the sorted
+names), names another node, and the topology is None or lists that node for the
 issuer; after a refusal nothing changed anywhere.
 Tie: `guard` / `exec` / `adj` / `ids` lines of the Lean driver `adjacency`
 (model `Adjacency.lean`; `exec` runs the statement list regenerated from
@@ -32,6 +37,7 @@ executioner.py by harness/gen/epr_guards.py)."""
 import itertools
 import os
 import random
+import time
 
 from .. import core
 from ..gen import epr_guards
@@ -55,8 +61,10 @@ TRUSTED = [
 ASSUMPTIONS = [
     "node names are distinct strings (keys of the JSON object `nodes`); the topology is null or a JSON object of lists",
     "the request reaches cmd_epr through netqasm's create_epr instruction (`_do_create_epr`, the only caller)",
-    "create-and-keep requests of one pair; the guard runs before the request type is looked at, so measure-directly "
-    "requests pass the same statements",
+    "requests of one pair, create-and-keep and measure-directly (both executed); the model does not distinguish the "
+    "request type: the guard runs before the type is looked at",
+    "remote node ids are values of a NetQASM register: integers in [-2^31, 2^31-1] (what the binary encoding can carry; "
+    "the harness checks on the encoded subroutine that the id it judges is the id that was sent)",
 ]
 
 POOL = ["Alice", "Bob", "Charlie", "David", "Eve", "Zed", "alice", "bob", "n1", "n10", "n2", "Q", "x", "Mallory"]
@@ -149,8 +157,29 @@ class Bench:
                 kinds.append("?:" + text.split("\n")[0][:80])
         return kinds
 
+    def _settler(self, flag, typ):
+        """`settle()` for one request.  Create-and-keep requests of the main stage: simnet's default budget of virtual
+        time.  The requests of the boundary-id stage: 60 s of virtual time (no time-out of the code is longer), and 5 s
+        once a settle of the same request ran out of budget -- a timer that re-arms for ever, e.g. the poll for an EPR
+        response that will never come, which only a changed implementation leaves behind; `flag["stuck"]` tells the
+        caller to retire the network after the request (every later settle would burn its whole budget)."""
+        nq = self.nq
+        if typ == "K":
+            def settle():
+                if not nq.settle():
+                    flag["stuck"] = True
+            return settle
+        budget = [60.0]
+
+        def settle():
+            if not nq.settle(max_virtual_time=budget[0]):
+                flag["stuck"] = True
+                budget[0] = 5.0
+        return settle
+
     # -- one request ---------------------------------------------------------
-    def request(self, issuer, rid):
+    def request(self, issuer, rid, typ="K"):
+        """typ "K" = create-and-keep, "M" = measure-directly (both halves measured in Z by the creator's node)"""
         S, nq = self.S, self.nq
         from netqasm.sdk import EPRSocket, Qubit
         from netqasm.sdk.connection import DebugConnection
@@ -158,7 +187,8 @@ class Bench:
         app = self.next_app
         self.next_app += 1
         ids = {n: i for i, n in enumerate(sorted(self.names))}
-        obs = {"app": app}
+        obs = {"app": app, "typ": typ}
+        settle = self._settler(obs, typ)
         before = self.counts()
         log0 = len(nq.pylog)
         new0 = len(_CMD_NEW_CALLS)
@@ -173,12 +203,15 @@ class Bench:
         sock = EPRSocket(REMOTE_ALIAS)
 
         def prog(conn):
-            sock.create_keep(1)
+            if typ == "K":
+                sock.create_keep(1)
+            else:
+                sock.create_measure(1)
             conn.flush()
             Qubit(conn)
             conn.flush()
-        msgs = S.program(issuer, prog, epr_sockets=[sock], app_id=app)
-        mk = kinds(msgs)
+        msgs, mk = _recorded(("create", app, rid, typ), [rid],
+                             lambda: S.program(issuer, prog, epr_sockets=[sock], app_id=app))
         subs = [m for m, k in zip(msgs, mk) if k == "SubroutineMessage"]
         if mk[:2] != ["InitNewAppMessage", "OpenEPRSocketMessage"] or len(subs) != 2 or "StopAppMessage" not in mk:
             raise core.MachineryError("unexpected SDK message sequence %r" % (mk,))
@@ -186,7 +219,7 @@ class Bench:
         pi, ti = nq.host(issuer)
         for i, m in enumerate([msgs[0], msgs[1], subs[0]]):
             nq.feed(pi, S.frame(i, m))
-            nq.settle()
+            settle()
         rep = S.parse_replies(ti.value())
         obs["issuer_replies"] = [r[0] for r in rep]
         obs["error"] = any(r[0] == "ErrorMessage" for r in rep)
@@ -195,6 +228,7 @@ class Bench:
         # entanglement information: the ent_info array written back (10 slots for create-keep, OK type, non-zero)
         arrays = [r[2] for r in rep if r[0] == "ReturnArrayMessage"]
         obs["ent_info"] = any(len(a) == 10 and any(x for x in a) for a in arrays)
+        info = [a for a in arrays if len(a) == 10 and any(x for x in a)]
         mid = self.counts()
         # who received something?
         gained = [n for n in self.names if n != issuer and
@@ -209,20 +243,27 @@ class Bench:
             psock = EPRSocket(issuer)
 
             def pprog(conn):
-                psock.recv_keep(1)
+                if typ == "K":
+                    psock.recv_keep(1)
+                else:
+                    psock.recv_measure(1)
                 conn.flush()
-            pm = S.program(peer, pprog, epr_sockets=[psock], app_id=app)
-            pk = kinds(pm)
+            pm, pk = _recorded(("recv", app, ids[issuer], typ), [],
+                               lambda: S.program(peer, pprog, epr_sockets=[psock], app_id=app))
             pp, tp = nq.host(peer)
             k = 0
             for m, kind in zip(pm, pk):
                 if kind in ("InitNewAppMessage", "OpenEPRSocketMessage", "SubroutineMessage"):
                     nq.feed(pp, S.frame(k, m))
-                    nq.settle()
+                    settle()
                     k += 1
             prep = S.parse_replies(tp.value())
             obs["peer_error"] = any(r[0] == "ErrorMessage" for r in prep)
             obs["peer_ent_info"] = any(r[0] == "ReturnArrayMessage" and len(r[2]) == 10 and any(r[2]) for r in prep)
+            pinfo = [r[2] for r in prep if r[0] == "ReturnArrayMessage" and len(r[2]) == 10 and any(r[2])]
+            if typ == "M":
+                # measure-directly record: [type, create id, outcome, basis, ...] at both ends
+                obs["md"] = [(a[2], a[3]) for a in info[:1]] + [(a[2], a[3]) for a in pinfo[:1]]
             pstop = pm[pk.index("StopAppMessage")]
         after = self.counts()
         obs["before"], obs["after"] = before, after
@@ -235,7 +276,7 @@ class Bench:
             pi, ti = nq.host(issuer)       # replies go to the most recent connection of a node
         t0 = len(ti.value())
         nq.feed(pi, S.frame(3, subs[1]))
-        nq.settle()
+        settle()
         rep2 = S.parse_replies(ti.value()[t0:])
         c2 = self.counts()
         obs["followup_ok"] = (not any(r[0] == "ErrorMessage" for r in rep2)
@@ -244,16 +285,116 @@ class Bench:
                               and c2[issuer]["qubitList"] == after[issuer]["qubitList"] + 1)
         # stop the application(s): everything is released
         nq.feed(pi, S.frame(4, stop))
-        nq.settle()
+        settle()
         if peer is not None:
             pp, tp = nq.host(peer)
             nq.feed(pp, S.frame(3, pstop))
-            nq.settle()
+            settle()
         fin = self.counts()
         obs["clean_after_stop"] = all(v["virt"] == 0 and v["sim"] == 0 and v["qubitList"] == 0 and v["numRegs"] == 0
                                       for v in fin.values()) and nq.all_locks_free()
         obs["final"] = fin
         return obs
+
+    # -- several requests that must all be refused, in ONE application ----------
+    def refusals(self, issuer, items):
+        """One application of `issuer` sends one request per (remote node id, type) of `items`, each in its own
+        subroutine (one EPR socket per distinct id); every one of them is expected to be refused.  Then the
+        application allocates a local qubit and stops.  One observation per executed item, in the shape of
+        `request`; the sequence ends early at the first item that was not refused without a trace (`dirty`: later
+        requests of this application would not be judged from a clean state -- the caller rebuilds the network)."""
+        S, nq = self.S, self.nq
+        from netqasm.sdk import EPRSocket, Qubit
+        from netqasm.sdk.connection import DebugConnection
+        app = self.next_app
+        self.next_app += 1
+        items = [(int(r), t) for r, t in items]
+        ids = {n: i for i, n in enumerate(sorted(self.names))}
+        distinct = list(dict.fromkeys(r for r, _ in items))
+        DebugConnection.node_ids = dict(ids)
+        socks = {}
+        for k, r in enumerate(distinct):
+            alias = "%s%d" % (REMOTE_ALIAS, k)
+            DebugConnection.node_ids[alias] = r
+            socks[r] = EPRSocket(alias, k, k)
+
+        def prog(conn):
+            for r, t in items:
+                if t == "K":
+                    socks[r].create_keep(1)
+                else:
+                    socks[r].create_measure(1)
+                conn.flush()
+            Qubit(conn)
+            conn.flush()
+        msgs, mk = _recorded(("refusals", app, tuple(items)), [r for r, _ in items],
+                             lambda: S.program(issuer, prog, epr_sockets=[socks[r] for r in distinct], app_id=app,
+                                               max_qubits=len(items) + 2))
+        subs = [m for m, k in zip(msgs, mk) if k == "SubroutineMessage"]
+        nopen = mk.count("OpenEPRSocketMessage")
+        if mk[:1 + nopen] != ["InitNewAppMessage"] + ["OpenEPRSocketMessage"] * nopen or nopen != len(distinct) \
+                or len(subs) != len(items) + 1 or "StopAppMessage" not in mk:
+            raise core.MachineryError("unexpected SDK message sequence %r" % (mk,))
+        stop = msgs[mk.index("StopAppMessage")]
+        pi, ti = nq.host(issuer)
+        mid = 0
+        stuck = {}
+        settle = self._settler(stuck, "M")
+        for m in msgs[:1 + nopen]:
+            nq.feed(pi, S.frame(mid, m))
+            settle()
+            mid += 1
+        if [r[0] for r in S.parse_replies(ti.value())] != ["MsgDoneMessage"] * (1 + nopen):
+            raise core.MachineryError("InitNewApp / OpenEPRSocket of the application were not all answered with Done")
+        out = []
+        after = self.counts()
+        for (rid, typ), sub in zip(items, subs):
+            before = after
+            t0, log0, new0 = len(ti.value()), len(nq.pylog), len(_CMD_NEW_CALLS)
+            nq.feed(pi, S.frame(mid, sub))
+            settle()
+            rep = S.parse_replies(ti.value()[t0:])
+            after = self.counts()
+            arrays = [r[2] for r in rep if r[0] == "ReturnArrayMessage"]
+            obs = {"app": app, "typ": typ, "in_sequence": len(out),
+                   "issuer_replies": [r[0] for r in rep],
+                   "error": any(r[0] == "ErrorMessage" for r in rep),
+                   "unparsed": any(r[0] == "UNPARSED" for r in rep),
+                   "done": [r[1] for r in rep if r[0] == "MsgDoneMessage"],
+                   "ent_info": any(len(a) == 10 and any(x for x in a) for a in arrays),
+                   "before": before, "after": after,
+                   "cmd_new": len(_CMD_NEW_CALLS) - new0, "err_kinds": self.error_kinds(log0), "bell": None,
+                   "reactor_stopped": nq.reactor_stopped, "followup_ok": True, "clean_after_stop": True}
+            obs["receivers"] = [n for n in self.names if after[n]["recv_epr"] > before[n]["recv_epr"]
+                                or after[n]["virt"] > before[n]["virt"]]
+            # answered at all: the error and the completion of THIS message, nothing else
+            obs["answered"] = obs["done"] == [mid]
+            mid += 1
+            obs["stuck"] = bool(stuck.get("stuck"))
+            obs["dirty"] = not (obs["error"] and obs["answered"] and not obs["ent_info"] and not obs["unparsed"]
+                                and before == after and obs["cmd_new"] == 0 and not obs["receivers"]
+                                and not nq.reactor_stopped and not obs["stuck"])
+            out.append(obs)
+            if obs["dirty"]:
+                return out
+        # can the application go on after all these refusals?  one local qubit, then stop: everything is released
+        t0 = len(ti.value())
+        nq.feed(pi, S.frame(mid, subs[-1]))
+        settle()
+        rep2 = S.parse_replies(ti.value()[t0:])
+        c2 = self.counts()
+        last = out[-1] if out else {}
+        last["followup_ok"] = (not any(r[0] == "ErrorMessage" for r in rep2)
+                               and any(r[0] == "MsgDoneMessage" for r in rep2)
+                               and c2[issuer]["virt"] == after[issuer]["virt"] + 1
+                               and c2[issuer]["qubitList"] == after[issuer]["qubitList"] + 1)
+        nq.feed(pi, S.frame(mid + 1, stop))
+        settle()
+        fin = self.counts()
+        last["clean_after_stop"] = all(v["virt"] == 0 and v["sim"] == 0 and v["qubitList"] == 0 and v["numRegs"] == 0
+                                       for v in fin.values()) and nq.all_locks_free()
+        last["final"] = fin
+        return out
 
     def _bell(self, a, b):
         """True iff some register holds exactly two qubits, one held by a and one by b, in the state |Phi+>"""
@@ -369,6 +510,52 @@ def _is_phi_plus(rows):
 
 _CMD_NEW_CALLS = []
 
+# The raw host messages of an SDK program depend only on the application id, the remote node id(s), the socket ids and
+# the request type -- not on the names of the nodes or the topology -- so each distinct program is recorded from the
+# netqasm SDK once per run and the bytes are reused (VERIF_C12_NOCACHE=1: record every time and compare).
+_PROGRAMS = {}
+
+
+def _recorded(key, rids, record):
+    """(raw messages, message kinds) of the SDK program `record()`; the remote node ids the create_epr instructions
+    of the program will find in their registers must be exactly `rids` (the binary encoding holds signed 32-bit
+    values and wraps silently: an id the encoder cannot represent must not be judged as if it had been sent)"""
+    from netqasm.backend.messages import deserialize_host_msg
+    hit = _PROGRAMS.get(key)
+    if hit is not None and not os.environ.get("VERIF_C12_NOCACHE"):
+        return hit
+    msgs = [bytes(m) for m in record()]
+    mk = [type(deserialize_host_msg(m)).__name__ for m in msgs]
+    if hit is not None and hit != (msgs, mk):
+        raise core.MachineryError("SDK program %r is not a function of its key" % (key,))
+    sent = _encoded_remote_ids(msgs, mk)
+    if sent != list(rids):
+        raise core.MachineryError("SDK program %r: create_epr towards node ids %r encoded, %r wanted" % (key, sent, rids))
+    _PROGRAMS[key] = (msgs, mk)
+    return msgs, mk
+
+
+def _encoded_remote_ids(msgs, mk):
+    """the value of the remote-node-id register at every create_epr of the recorded subroutines (straight-line SDK
+    code: the last `set` of that register)"""
+    from netqasm.backend.messages import deserialize_host_msg
+    from netqasm.lang.parsing import deserialize
+    out = []
+    for m, k in zip(msgs, mk):
+        if k != "SubroutineMessage":
+            continue
+        regs = {}
+        for ins in deserialize(deserialize_host_msg(m).subroutine).instructions:
+            nm = type(ins).__name__
+            if nm == "SetInstruction":
+                regs[str(ins.reg)] = ins.imm.value
+            elif nm == "CreateEPRInstruction":
+                out.append(regs.get(str(ins.operands[0])))
+    return out
+
+
+INT32_MIN, INT32_MAX = -2 ** 31, 2 ** 31 - 1
+
 
 def _wrap_cmd_new(EX):
     cls = EX.VanillaSimulaQronExecutioner
@@ -465,13 +652,54 @@ def pick_names(rng, n):
 # run
 # --------------------------------------------------------------------------
 
+P_FULL3 = float(os.environ.get("VERIF_C12_PFULL", "0.03"))      # quick tier, dict topologies over 3 nodes
+P_THIN3 = float(os.environ.get("VERIF_C12_PTHIN", "0.5"))
+LARGE_IDS = [INT32_MIN, -(2 ** 16) + 1, 2 ** 16 + 1, INT32_MAX]     # the limits of a register, and +-2^16 + 1
+
+
+def boundary_ids(n):
+    """the signed id range around both boundaries of `0 <= id < n`, then large magnitudes: -n-1 .. n+1 (ids -n .. -1
+    are the positions Python counts from the end of a list), the register limits +-2^31 (the largest magnitudes the
+    NetQASM encoding can carry) and two ids that equal a valid id modulo 2^16"""
+    return list(range(-n - 1, n + 2)) + LARGE_IDS
+
+
+def id_class(rid, n):
+    if -n <= rid < 0:
+        return "negative-wraps-to-a-node"
+    if rid < 0:
+        return "negative-large" if rid < -n - 1 else "negative-below-minus-n"
+    return "first-too-large" if rid == n else "too-large" if rid <= n + 250 else "positive-large"
+
+
+def boundary_items(n, done_keep, mode, brng, complete=False):
+    """[(remote id, type)] of the out-of-range ids of `boundary_ids(n)`.
+    mode "full": every id of -n-1 .. n+1 with create-and-keep and with measure-directly (minus the create-and-keep
+    requests the main stage has already made, `done_keep`), every large id with one type, alternating along the list
+    from a drawn start (`complete`: both types);
+    mode "thin": every id of -n-1 .. n+1 once, the type drawn per id, plus one negative and one positive large id"""
+    out = []
+    small = [r for r in range(-n - 1, n + 2) if not 0 <= r < n]
+    if mode == "full":
+        for rid in small:
+            out += [(rid, t) for t in "KM" if not (t == "K" and rid in done_keep)]
+        flip = brng.randrange(2)
+        for i, rid in enumerate(LARGE_IDS):
+            out += [(rid, t) for t in "KM"] if complete else [(rid, "KM"[(i + flip) % 2])]
+    else:
+        out = [(rid, "M" if rid in done_keep else brng.choice("KM")) for rid in small]
+        out += [(brng.choice(LARGE_IDS[:2]), brng.choice("KM")), (brng.choice(LARGE_IDS[2:]), brng.choice("KM"))]
+    return out
+
+
 def judge(res, case, obs, exp_allowed, exp_remote, cls):
     """the property on one real execution"""
     names, issuer = case["names"], case["issuer"]
     before, after = obs["before"], obs["after"]
     changed = {n: (before[n], after[n]) for n in names if before[n] != after[n]}
     rep = {**case, "class": cls, "observed": {k: obs[k] for k in ("issuer_replies", "error", "ent_info", "receivers",
-                                                                 "cmd_new", "err_kinds", "bell", "peer_error")
+                                                                 "cmd_new", "err_kinds", "bell", "peer_error", "md",
+                                                                 "answered")
                                               if k in obs}, "changed": changed}
     if obs["unparsed"]:
         res.violation("reply-unparsable", "host replies of the issuer do not parse", rep)
@@ -480,6 +708,20 @@ def judge(res, case, obs, exp_allowed, exp_remote, cls):
             res.violation("allowed-but-refused:" + cls,
                           "%s -> id %d (%s) is allowed by the topology but the request failed (%s)" % (
                               issuer, case["rid"], exp_remote, obs["err_kinds"] or "ErrorMessage"), rep)
+            return
+        if obs.get("typ") == "M":
+            # measure-directly: two qubits created and measured by the issuer's node, nothing left anywhere, both
+            # hosts hold a record, and the two Z outcomes of |Phi+> agree
+            md = obs.get("md") or []
+            ok = (obs["ent_info"] and obs.get("peer_ent_info") and obs["cmd_new"] == 2
+                  and obs["receivers"] == [exp_remote]
+                  and all(after[n] == before[n] for n in names)
+                  and len(md) == 2 and md[0] == md[1] and md[0][0] in (0, 1))
+            if not ok:
+                res.violation("allowed-no-pair:" + cls,
+                              "%s -> %s (measure directly) allowed and not refused, but not: one pair created, measured, "
+                              "one record with equal outcomes at exactly these two nodes, no qubit left" % (
+                                  issuer, exp_remote), rep)
             return
         ok = (obs["ent_info"] and obs.get("peer_ent_info")
               and after[issuer]["virt"] == before[issuer]["virt"] + 1
@@ -504,6 +746,10 @@ def judge(res, case, obs, exp_allowed, exp_remote, cls):
             res.violation("refused-but-created:" + cls,
                           "%s -> id %d refused (%s) but qubit state changed at %s (cmd_new calls: %d)" % (
                               issuer, case["rid"], cls, sorted(changed), obs["cmd_new"]), rep)
+        if obs["error"] and obs.get("answered") is False:
+            res.violation("refused-not-completed:" + cls,
+                          "%s -> id %d refused (%s) but the message was not completed with exactly one Done carrying "
+                          "its id (%r)" % (issuer, case["rid"], cls, obs["issuer_replies"]), rep)
 
 
 def impl_lines(case, obs):
@@ -532,7 +778,14 @@ def run(ctx):
                 "nodes incl. itself: 4 + 26 + 730) x every issuer x every remote id 0..n (n = unknown; thorough: one "
                 "more unknown id); random: topologies over 4-5 nodes (absent nodes, asymmetric lists, self-loops, "
                 "stranger names as keys and neighbours) x all ordered pairs + self + two unknown ids; one "
-                "real network per topology, one application per request; plus config files with 2-3 networks of different "
+                "real network per topology, one application per request (create-and-keep); boundary-id stage (remote "
+                "ids are register values, signed 32 bit): every issuer x every id of -n-1..n+1 x {create-and-keep, "
+                "measure-directly} + the ids -2^31, -2^16+1, 2^16+1, 2^31-1, on every topology over 1-2 nodes, every "
+                "random and every started topology and, over 3 nodes, on None, {}, the complete graph and a drawn %g of "
+                "the dicts (thorough: all); on a drawn %g of the other 3-node dicts one issuer sends every out-of-range "
+                "id of -n-1..n+1, one negative and one positive large id and one measure-directly request to a node; the "
+                "out-of-range requests of one issuer are consecutive subroutines of ONE application (one socket per id), "
+                "judged one by one; plus config files with 2-3 networks of different " % (P_FULL3, P_THIN3) +
                 "topologies whose nodes are started through the real start_qnodeos.main(name, network) (4 fixed + random); "
                 "node names in random (non-alphabetical) file order; non-trivial = a topology is configured and "
                 "the id is known; distinct by (names, topology, issuer, id)")
@@ -543,10 +796,14 @@ def run(ctx):
         expect.append((want, case, loose))
 
     seen_followup_bad, seen_unclean = [], []
-    stopped = [0]
+    stopped, spent, cpu0 = [0], [0.0], time.process_time()
+    # choices of the boundary-id stage come from their own stream (the cases of the main stage do not depend on them)
+    brng = random.Random("C12-boundary-%d" % ctx.seed)
 
-    def do_topology(names, topology, fresh_each=False, started=None):
-        """started = (network name, networks): the factories come from the real start-up path (StartedBench)"""
+    def do_topology(names, topology, fresh_each=False, started=None, boundary="full"):
+        """started = (network name, networks): the factories come from the real start-up path (StartedBench);
+        boundary = "full": every issuer x the whole signed id range around the boundaries x both request types;
+        "thin": one issuer, every boundary id with one of the two types; None: main stage only"""
         seed = rng.randrange(2 ** 31)
         extra = {"network": started[0], "networks": started[1]} if started else {}
 
@@ -588,27 +845,81 @@ def run(ctx):
         rids = list(range(n)) + [n]                        # every node id, and the first unknown one
         if n >= 4 or ctx.thorough:
             rids.append(n + rng.choice([1, 2, 7, 250]))    # a further unknown id
+
+        def account(issuer, rid, typ, obs, sequence=None):
+            """judge one real execution, queue its model lines, count it; True iff it raised no violation"""
+            case = {"names": names, "topology": topology, "issuer": issuer, "rid": rid, **extra}
+            if typ != "K":
+                case["typ"] = typ
+            if sequence is not None:
+                case["sequence"] = [list(x) for x in sequence]
+            exp_allowed, exp_remote, cls = oracle_allowed(names, topology, issuer, rid)
+            nv = len(res.violations)
+            judge(res, case, obs, exp_allowed, exp_remote, cls)
+            g, e = impl_lines(case, obs)
+            q("guard %s | %s | %s | %d" % (",".join(names), tok, issuer, rid), g, case)
+            q("exec %s | %s | %s | %d" % (",".join(names), tok, issuer, rid), e, case, loose=True)
+            res.case(case, nontrivial=topology is not None and 0 <= rid < n)
+            res.count(cls)
+            res.count("n=%d" % n)
+            if typ != "K":
+                res.count("measure-directly")
+            if cls == "unknown-id":
+                res.count("unknown-id:" + id_class(rid, n))
+            if obs["reactor_stopped"]:
+                stopped[0] += 1
+            if not obs["followup_ok"]:
+                seen_followup_bad.append(case)
+            if not obs["clean_after_stop"]:
+                seen_unclean.append((case, obs["final"]))
+            return len(res.violations) == nv
+
         for issuer in names:
             for rid in rids:
                 if fresh_each and bench.next_app > 0:
                     bench = mk_bench(names, topology, seed)
-                case = {"names": names, "topology": topology, "issuer": issuer, "rid": rid, **extra}
-                exp_allowed, exp_remote, cls = oracle_allowed(names, topology, issuer, rid)
                 obs = bench.request(issuer, rid)
-                judge(res, case, obs, exp_allowed, exp_remote, cls)
-                g, e = impl_lines(case, obs)
-                q("guard %s | %s | %s | %d" % (",".join(names), tok, issuer, rid), g, case)
-                q("exec %s | %s | %s | %d" % (",".join(names), tok, issuer, rid), e, case, loose=True)
-                res.case(case, nontrivial=topology is not None and rid < n)
-                res.count(cls)
-                res.count("n=%d" % n)
-                if obs["reactor_stopped"]:
-                    stopped[0] += 1
-                if not obs["followup_ok"]:
-                    seen_followup_bad.append(case)
+                account(issuer, rid, "K", obs)
                 if not obs["clean_after_stop"]:
-                    seen_unclean.append((case, obs["final"]))
                     bench = mk_bench(names, topology, seed)      # do not let leftovers leak into the next request
+
+        tb = time.process_time()
+        # -- the signed id range around the boundaries (ids are register values: signed 32 bit), both request types
+        for issuer in (names if boundary == "full" else [brng.choice(names)] if boundary == "thin" else []):
+            items = boundary_items(n, rids, boundary, brng, complete=ctx.thorough)
+            k = 0
+            while k < len(items):
+                if fresh_each and bench.next_app > 0:
+                    bench = mk_bench(names, topology, seed)
+                batch = bench.refusals(issuer, items[k:])
+                for (rid, typ), obs in zip(items[k:], batch):
+                    if not obs["dirty"]:
+                        account(issuer, rid, typ, obs)
+                        continue
+                    # not refused without a trace: the same request on its own as the first request in a fresh network
+                    # (the replay of a violation is then one request); if it is clean there, the failure needs the
+                    # earlier refused requests of the same application
+                    bench.nq.close()
+                    bench = mk_bench(names, topology, seed)
+                    if account(issuer, rid, typ, bench.request(issuer, rid, typ)):
+                        if account(issuer, rid, typ, obs, sequence=items[k:k + obs["in_sequence"] + 1]):
+                            res.count("in-sequence:not-refused-without-a-trace-but-no-violation")
+                    bench.nq.close()
+                    bench = mk_bench(names, topology, seed)
+                k += len(batch)
+                if batch and not batch[-1]["clean_after_stop"]:
+                    bench.nq.close()
+                    bench = mk_bench(names, topology, seed)
+            # every id that names a node, as a measure-directly request
+            for rid in (range(n) if boundary == "full" else [brng.randrange(n)]):
+                if fresh_each and bench.next_app > 0:
+                    bench = mk_bench(names, topology, seed)
+                obs = bench.request(issuer, rid, "M")
+                account(issuer, rid, "M", obs)
+                if not obs["clean_after_stop"] or obs.get("stuck"):
+                    bench.nq.close()
+                    bench = mk_bench(names, topology, seed)
+        spent[0] += time.process_time() - tb
         bench.nq.close()
 
     # ---- replay of a recorded failing input
@@ -623,8 +934,12 @@ def run(ctx):
             return res
         if "issuer" in c:
             exp_allowed, exp_remote, cls = oracle_allowed(c["names"], c["topology"], c["issuer"], c["rid"])
-            obs = bench.request(c["issuer"], c["rid"])
-            case = {k: c[k] for k in ("names", "topology", "issuer", "rid", "network", "networks") if k in c}
+            if c.get("sequence"):       # the request as the last one of several refused requests of one application
+                obs = bench.refusals(c["issuer"], [tuple(x) for x in c["sequence"]])[-1]
+            else:
+                obs = bench.request(c["issuer"], c["rid"], c.get("typ", "K"))
+            case = {k: c[k] for k in ("names", "topology", "issuer", "rid", "typ", "sequence", "network", "networks")
+                    if k in c}
             judge(res, case, obs, exp_allowed, exp_remote, cls)
         elif "loaded" in c:
             fac = bench.nq.facs[c["me"]]
@@ -655,7 +970,15 @@ def run(ctx):
             # debugging aid only (VERIF_C12_SAMPLE=k): k of the 729 dicts plus None
             topos = [None] + rng.sample(topos[1:], min(int(os.environ["VERIF_C12_SAMPLE"]), len(topos) - 1))
         for t in topos:
-            do_topology(names, t)
+            # the boundary-id stage: complete on every topology over 1-2 nodes, and over 3 nodes on None, the empty
+            # dict, the complete graph and a drawn share of the 729 dicts (thorough: all of them); on the others one
+            # issuer sends every out-of-range boundary id once
+            if ctx.thorough or n < 3 or not t or all(set(t.get(x, [])) == set(names) - {x} for x in names):
+                mode = "full"
+            else:
+                mode = "full" if brng.random() < P_FULL3 else "thin" if brng.random() < P_THIN3 else None
+            do_topology(names, t, boundary=mode)
+            res.count("boundary-stage:%s" % mode)
         res.count("topologies-n%d" % n, len(topos))
     res.exhaustive = full3
 
@@ -679,6 +1002,8 @@ def run(ctx):
     if seen_unclean:
         res.notes.append("after %d request(s) StopApp did not leave all nodes empty; first: %r"
                          % (len(seen_unclean), seen_unclean[0]))
+    res.notes.append("boundary-id stage (signed ids, measure-directly): %.1f s of %.1f s CPU time of the cases" % (
+        spent[0], time.process_time() - cpu0))
     res.notes.append("reactor.stop() seen after %d request(s) (a refusal sends ErrorMessage + Done and does not stop the node)"
                      % stopped[0])
 
@@ -699,5 +1024,76 @@ def run(ctx):
 
 
 def search(ctx, res, broken):
-    res.notes.append("targeted search = the oracle over every generated (topology, issuer, remote id), including the "
-                     "complete space up to 3 nodes in the thorough tier; no failing input")
+    """Targeted search, run when a proof obligation or the model/implementation correspondence broke and no case of
+    `run` showed a failing input.  The oracle (`judge`) on single requests, each the only request of its application:
+    (1) FIRST the boundary ids (`boundary_ids`: -n-1 .. n+1, then -2^31, -2^16+1, 2^16+1, 2^31-1) x create-and-keep
+        and measure-directly x every issuer, over 2..5 nodes in non-alphabetical file order, with no topology, the
+        complete graph and a directed ring (a mis-resolved id shows only if the node it resolves to is allowed);
+    (2) then ids drawn from the whole register range (uniform, around multiples of n and of powers of two, small
+        negatives) on random topologies.
+    Stops at the end of the first network with a failing input."""
+    core.scratch_repo()
+    rng = random.Random("C12-search-%d" % ctx.seed)
+    tried = [0, 0]
+
+    def sweep(names, topology, requests, stage):
+        """requests = [(issuer, id, type)]; True iff a failing input was found"""
+        nv = len(res.violations)
+        seed = rng.randrange(2 ** 31)
+        bench = Bench(names, topology, seed)
+        for issuer, rid, typ in requests:
+            case = {"names": names, "topology": topology, "issuer": issuer, "rid": rid}
+            if typ != "K":
+                case["typ"] = typ
+            exp_allowed, exp_remote, cls = oracle_allowed(names, topology, issuer, rid)
+            obs = bench.request(issuer, rid, typ)
+            judge(res, case, obs, exp_allowed, exp_remote, cls)
+            res.case(case, nontrivial=topology is not None and 0 <= rid < len(names))
+            res.count("search:" + cls)
+            tried[stage] += 1
+            if not obs["clean_after_stop"] or len(res.violations) > nv:
+                bench.nq.close()
+                bench = Bench(names, topology, seed)
+        bench.nq.close()
+        return len(res.violations) > nv
+
+    def done(found):
+        res.notes.append("targeted search: %d boundary-id requests (ids -n-1..n+1 and the register limits, both request "
+                         "types, every issuer, 2-5 nodes, no topology / complete graph / directed ring), then %d requests "
+                         "with ids drawn from the whole register range on random topologies: %s" % (
+                             tried[0], tried[1], "failing input found" if found else "no failing input"))
+
+    # (1) the boundary ids
+    for n in (2, 3, 4, 5):
+        names = pick_names(rng, n)
+        if names == sorted(names):
+            names = names[::-1]
+        ring = {a: [names[(i + 1) % n]] for i, a in enumerate(names)}
+        complete = {a: [b for b in names if b != a] for a in names}
+        for topology in (None, complete, ring):
+            reqs = [(issuer, rid, typ) for rid in boundary_ids(n) for typ in "KM" for issuer in names]
+            if sweep(names, topology, reqs, 0):
+                return done(True)
+    # (2) the whole register range
+    for _ in range(ctx.scale(30, 200)):
+        n = rng.choice([2, 3, 4, 5])
+        names = pick_names(rng, n)
+        topology = rng.choice([None, random_topology(rng, names), {a: [b for b in names if b != a] for a in names}])
+        reqs = []
+        for issuer in names:
+            for _k in range(6):
+                kind = rng.randrange(5)
+                if kind == 0:
+                    rid = rng.randint(INT32_MIN, INT32_MAX)
+                elif kind == 1:
+                    rid = rng.choice([-1, 1]) * rng.randrange(0, 40) * n + rng.randrange(-1, n + 1)
+                elif kind == 2:
+                    rid = rng.choice([-1, 1]) * 2 ** rng.choice([7, 8, 15, 16, 24, 30]) + rng.randrange(-n - 1, n + 2)
+                elif kind == 3:
+                    rid = -rng.randrange(1, 3 * n + 2)
+                else:
+                    rid = rng.randrange(0, 3 * n + 2)
+                reqs.append((issuer, max(INT32_MIN, min(INT32_MAX, rid)), rng.choice("KM")))
+        if sweep(names, topology, reqs, 1):
+            return done(True)
+    return done(False)
